@@ -115,6 +115,50 @@ pub fn check_encoding(rep: &mut Report, enc: &[u8], o: &Opts, rng: &mut Rng) {
     } else {
         rep.count("skipped exactly");
     }
+    // a decoder that has just failed a skip (in the middle of nested containers, through a probe or
+    // directly) is repositioned to the item: skipping must behave exactly as on a fresh decoder
+    if o.has_alloc && len <= 512 {
+        const BROKEN: [&[u8]; 4] = [&[0x82, 0x9f, 0x01, 0xfc], &[0x83, 0xbf, 0x00, 0x9f, 0xfd], &[0xa2, 0x00, 0x9f, 0x01, 0x9f, 0xfe], &[0x9f, 0x82, 0x9f, 0xff]];
+        let pre = BROKEN[rng.usize_below(BROKEN.len())];
+        let cut_short = pre[pre.len() - 1] == 0xff; // the last one fails by running out of input: only usable alone
+        let mut input = pre.to_vec();
+        if !cut_short {
+            input.extend_from_slice(enc);
+            input.push(0x00);
+        }
+        let input: Box<[u8]> = input.into_boxed_slice();
+        rep.eval();
+        let r = mon::guarded(|| {
+            let mut d = Decoder::new(&input);
+            let via_probe = pre.len() % 2 == 0;
+            let first = if via_probe { d.probe().skip() } else { d.skip() };
+            if first.is_ok() {
+                return Err("the ill-formed prelude was skipped successfully".to_string());
+            }
+            if cut_short {
+                // retry on the same decoder from the start: same failure, no panic
+                d.set_position(0);
+                return if d.skip().is_err() { Ok(()) } else { Err("a truncated item was skipped on the second attempt".to_string()) };
+            }
+            d.set_position(pre.len());
+            d.skip().map_err(|e| format!("after a failed skip, skipping a well-formed item on the same decoder fails: {}", e))?;
+            if d.position() != pre.len() + len {
+                return Err(format!("after a failed skip, skip on the same decoder stopped at {} but the item ends at {}", d.position(), pre.len() + len));
+            }
+            let mut c = d.clone();
+            c.set_position(pre.len());
+            c.skip().map_err(|e| format!("a clone of a decoder that failed a skip cannot skip a well-formed item: {}", e))?;
+            if c.position() != pre.len() + len {
+                return Err(format!("clone of a decoder that failed a skip stopped at {} instead of {}", c.position(), pre.len() + len));
+            }
+            Ok(())
+        });
+        match r {
+            Err(p) => fail(rep, "skip|reused-decoder-panic", p.message, &input),
+            Ok(Err(e)) => fail(rep, "skip|reused-decoder", e, &input),
+            Ok(Ok(())) => rep.count("skip on a decoder that failed a skip before"),
+        }
+    }
     // agreement with full decoding: the tokenizer consumes the same bytes
     #[cfg(feature = "half")]
     {
